@@ -57,6 +57,9 @@ type progResult struct {
 	R   string   `json:"r"`
 	V   *progObs `json:"v,omitempty"`
 	Msg string   `json:"msg,omitempty"`
+	// set when, after some step, ValidateReferences disagreed with the link state (never compared
+	// with the model; reported as a finding)
+	Inconsistent string `json:"-"`
 }
 
 type progTree struct {
@@ -138,9 +141,34 @@ func (b *progBuilder) table(from string) map[string]*schema.ObjectSchema {
 	return sc.Objects()
 }
 
+func (b *progBuilder) tableMinus(from string, missing []string) map[string]*schema.ObjectSchema {
+	out := map[string]*schema.ObjectSchema{}
+	for id, o := range b.table(from) {
+		out[id] = o
+	}
+	for _, id := range missing {
+		delete(out, id)
+	}
+	return out
+}
+
+// try runs a step the way a caller that recovers from the panic does.
+func (b *progBuilder) try(st []string) {
+	defer func() { _ = recover() }()
+	b.step(st)
+}
+
 func (b *progBuilder) step(st []string) {
+	if st[0] == "try" {
+		b.try(st[1:])
+		return
+	}
 	pt := b.trees[st[1]]
 	switch st[0] {
+	case "applySub":
+		pt.top.ApplyNamespace(b.tableMinus(st[3], st[4:]), st[2])
+	case "applyAtSub":
+		pt.scopes[st[2]].ApplyNamespace(b.tableMinus(st[4], st[5:]), st[3])
 	case "build":
 		pt.top = b.build(pt, pt.node, st[1], nil)
 	case "buildKids":
@@ -179,8 +207,27 @@ func runProg(c *progCase) (res progResult) {
 	for _, t := range c.Trees {
 		b.trees[t.Name] = &progTree{node: t.Tree, scopes: map[string]*schema.ScopeSchema{}}
 	}
-	for _, st := range c.Steps {
+	inconsistent := ""
+	for i, st := range c.Steps {
 		b.step(st)
+		// after EVERY step: ValidateReferences succeeds exactly when every reference is linked to an object
+		for _, t := range c.Trees {
+			pt := b.trees[t.Name]
+			if pt.top == nil || inconsistent != "" {
+				continue
+			}
+			all := true
+			for _, r := range pt.refs {
+				if !r.ref.ObjectReady() {
+					all = false
+				} else if o, ok := r.ref.GetObject().(*schema.ObjectSchema); !ok || o == nil {
+					all = false
+				}
+			}
+			if valid := pt.top.ValidateReferences() == nil; valid != all {
+				inconsistent = fmt.Sprintf("after step %d %v: ValidateReferences of tree %q succeeds = %v, every reference linked to an object = %v", i, st, t.Name, valid, all)
+			}
+		}
 	}
 	obs := &progObs{}
 	for _, t := range c.Trees {
@@ -188,7 +235,7 @@ func runProg(c *progCase) (res progResult) {
 		lb := &linkBuilder{objs: b.objs, refs: pt.refs}
 		obs.Trees = append(obs.Trees, [3]any{t.Name, lb.observe(), pt.top.ValidateReferences() == nil})
 	}
-	return progResult{R: "ok", V: obs}
+	return progResult{R: "ok", V: obs, Inconsistent: inconsistent}
 }
 
 // ---- the oracle: per reference, lexical lookup; a program only decides WHICH references have been
@@ -279,36 +326,68 @@ func progOracle(c *progCase) (map[string][]*oref, bool) {
 		return true
 	}
 	for _, st := range c.Steps {
+		recovering := st[0] == "try"
+		if recovering {
+			st = st[1:]
+		}
 		owner := st[1]
+		// a recovered failure leaves every reference as it was
+		var saved [][]string
 		for _, r := range refs[owner] {
+			saved = append(saved, r.target)
+		}
+		failed := false
+		var missing []string
+		switch st[0] {
+		case "applySub":
+			missing = st[4:]
+			st = []string{"apply", st[1], st[2], st[3]}
+		case "applyAtSub":
+			missing = st[5:]
+			st = []string{"applyAt", st[1], st[2], st[3], st[4]}
+		}
+		foreign := func(r *oref, from string) bool {
+			for _, m := range missing {
+				if m == r.id {
+					return false
+				}
+			}
+			return foreign(r, from)
+		}
+		for _, r := range refs[owner] {
+			if failed {
+				break
+			}
+			ok := true
 			switch st[0] {
 			case "build":
-				if r.ns == "" && r.ids != nil && !self(owner, r) {
-					return nil, true
-				}
+				ok = !(r.ns == "" && r.ids != nil) || self(owner, r)
 			case "buildKids":
-				if r.ns == "" && len(r.chain) >= 2 && !self(owner, r) {
-					return nil, true
-				}
+				ok = !(r.ns == "" && len(r.chain) >= 2) || self(owner, r)
 			case "self":
-				if r.ns == "" && !self(owner, r) {
-					return nil, true
-				}
+				ok = r.ns != "" || self(owner, r)
 			case "apply":
-				if r.ns == st[2] && !foreign(r, st[3]) {
-					return nil, true
-				}
+				ok = r.ns != st[2] || foreign(r, st[3])
 			case "applyAt":
 				if !inChain(r.chain, st[2]) || r.ns != st[3] {
 					continue
 				}
 				if st[3] == "" {
-					if !self(owner, r) {
-						return nil, true
-					}
-				} else if !foreign(r, st[4]) {
-					return nil, true
+					ok = self(owner, r)
+				} else {
+					ok = foreign(r, st[4])
 				}
+			}
+			if !ok {
+				failed = true
+			}
+		}
+		if failed {
+			if !recovering {
+				return nil, true
+			}
+			for i, r := range refs[owner] {
+				r.target = saved[i]
 			}
 		}
 	}
@@ -435,6 +514,75 @@ func schedSteps(tree string, at string, sched []string) [][]string {
 	return out
 }
 
+// emptyishScope has no object any generated reference asks for.
+func emptyishScope() *lnode {
+	return &lnode{T: "scope", Root: "Qq", Objs: []lkid{{"Qq", &lnode{T: "obj", ID: "Qq",
+		Props: []lkid{{"p", &lnode{T: "leaf"}}, {"q", &lnode{T: "leaf"}}}}}}}
+}
+
+// withFailures inserts applications that must fail (and are recovered from) into a program for
+// the tree under test: (1) a table that has none of the referenced IDs, at any time - before the
+// namespace was ever applied, after it was, on the embedded scope or on the whole tree; (2) right
+// after a successful application, the same table again with some of its IDs removed (a partial
+// re-binding). Neither may change anything: the reference whose ID is missing keeps its link (or
+// stays unlinked), the others are re-linked to what they denote already.
+func withFailures(r interface{ Intn(int) int }, steps [][]string, trees []namedTree) [][]string {
+	ids := map[string][]string{}
+	for _, t := range trees {
+		for _, k := range t.Tree.Objs {
+			ids[t.Name] = append(ids[t.Name], k.Name)
+		}
+	}
+	var out [][]string
+	usable := false
+	embedAt := ""
+	for _, st := range steps {
+		out = append(out, st)
+		if st[1] != "" {
+			continue
+		}
+		switch st[0] {
+		case "build", "self":
+			usable = true
+		case "applyAt":
+			embedAt = st[2]
+		}
+		if (st[0] == "apply" || st[0] == "applyAt") && st[len(st)-1] != "" && r.Intn(3) == 0 {
+			from := st[len(st)-1]
+			var missing []string
+			for _, id := range ids[from] {
+				if r.Intn(2) == 0 {
+					missing = append(missing, id)
+				}
+			}
+			if len(missing) == 0 {
+				missing = ids[from][:1]
+			}
+			if st[0] == "apply" {
+				out = append(out, append([]string{"try", "applySub", "", st[2], from}, missing...))
+			} else {
+				out = append(out, append([]string{"try", "applyAtSub", "", st[2], st[3], from}, missing...))
+			}
+		}
+		if r.Intn(3) == 0 {
+			ns := []string{"X", "Y"}[r.Intn(2)]
+			switch {
+			case usable:
+				out = append(out, []string{"try", "apply", "", ns, "E"})
+			case embedAt != "" || st[0] == "buildKids":
+				// the embedded scope before the outer one exists: its position is known from the next steps
+				for _, later := range steps {
+					if later[0] == "applyAt" && later[1] == "" {
+						out = append(out, []string{"try", "applyAt", "", later[2], ns, "E"})
+						break
+					}
+				}
+			}
+		}
+	}
+	return out
+}
+
 func groupSched(s *sink, g *hx.Gen) {
 	r := g.R
 	trees, embedAt := genLinkUniverse(g)
@@ -466,11 +614,22 @@ func groupSched(s *sink, g *hx.Gen) {
 			note = "embed:" + note
 			s.stats["sched:embedded"]++
 		}
+		if k%2 == 1 {
+			// FAILING applications the caller recovers from, anywhere in the history
+			c.Trees = append(append([]namedTree{}, trees...), namedTree{"E", emptyishScope()})
+			c.Steps = append([][]string{{"build", "E"}}, withFailures(r, c.Steps, trees)...)
+			note = "failing:" + note
+			s.stats["sched:with-failing-steps"]++
+		}
 		c.Note = note
 		s.nextID++
 		c.ID = s.nextID
 		res := runProg(c)
 		s.emitProg(c, res)
+		if res.R == "ok" && res.Inconsistent != "" {
+			cb, _ := json.Marshal(c)
+			s.finding(Finding{Prop: "C14", What: "ValidateReferences does not say whether every reference is linked: " + res.Inconsistent, Cases: []int{c.ID}, Detail: []string{string(cb)}})
+		}
 		s.stats[fmt.Sprintf("sched:len:%d", len(sched))]++
 		want, wantPanic := progOracle(c)
 		detail := func() []string {
@@ -998,6 +1157,44 @@ func groupNSBehave(s *sink, g *hx.Gen) {
 			// the schedule (embedding applies the rest to O) left something unlinked: nothing to run
 			s.stats["nsbehave:not-fully-linked"]++
 			continue
+		}
+		if k != 0 {
+			// applications that fail and are recovered from must leave everything as it was: a table
+			// without any of the IDs, and the current table with some IDs removed
+			xNow := w.x
+			if u.bind[""]["X"] == "X2" {
+				xNow = w.x2
+			}
+			tryApply := func(tbl map[string]*schema.ObjectSchema, ns string) {
+				defer func() { _ = recover() }()
+				impl.ApplyNamespace(tbl, ns)
+			}
+			sub := func(full map[string]*schema.ObjectSchema) map[string]*schema.ObjectSchema {
+				out := map[string]*schema.ObjectSchema{}
+				for id, o := range full {
+					out[id] = o
+				}
+				for id := range full {
+					if len(out) == len(full) || r.Intn(2) == 0 {
+						delete(out, id)
+					}
+				}
+				return out
+			}
+			for i := 0; i < 1+r.Intn(3); i++ {
+				switch r.Intn(4) {
+				case 0:
+					tryApply(map[string]*schema.ObjectSchema{}, "X")
+				case 1:
+					tryApply(map[string]*schema.ObjectSchema{}, "Y")
+				case 2:
+					tryApply(sub(xNow.Objects()), "X")
+				default:
+					tryApply(sub(w.y.Objects()), "Y")
+				}
+			}
+			note += ":failed-applications"
+			s.stats["nsbehave:with-failed-applications"]++
 		}
 		compare := func(impl schema.Type, model *hx.Ty, altModel *hx.Ty, what string) {
 			var vals []*hx.Val
